@@ -491,6 +491,27 @@ class ImplRunner:
                 return [wire.enc_val(guarded(lambda: fns[ps["fn"]](self.ind.candles, **kw)))]
             except Exception as e:  # noqa
                 return ["a" + wire.enc_err(e)]
+        if op == "autil":
+            if self.ind is None:
+                return ["bad-op"]
+            ps, _ = split_params(rest)
+            from hexital.analysis import utils as autils
+
+            fn = getattr(autils, ps["fn"])
+            cs = self.ind.candles
+            try:
+                if ps.get("two") is not None:     # the two-candle predicates: fn(candles[i], candles[j])
+                    return ["true" if guarded(lambda: fn(cs[int(ps["idx"])], cs[int(ps["two"])])) else "false"]
+                kw = {}
+                if ps.get("length") is not None:
+                    kw["length"] = int(ps["length"])
+                if ps.get("idx") is not None:
+                    kw["index"] = int(ps["idx"])
+                if ps.get("pct") is not None:
+                    kw["percentage"] = wire.dec_num(ps["pct"])
+                return [wire.enc_num(guarded(lambda: fn(cs, **kw)))]
+            except Exception as e:  # noqa
+                return ["a" + wire.enc_err(e)]
         if op == "hmember":
             ps, _ = split_params(rest)
             if ps.get("form") == "bad":      # neither an Indicator nor a dict
